@@ -42,10 +42,9 @@ def do_replay(path):
         # the counterexample was found under another string hash seed: start again under that one
         os.execve(sys.executable, [sys.executable, "-m", "vt.run", "--replay", path], dict(os.environ, PYTHONHASHSEED=want_seed))
     mod = harness_module(rp["property"])
-    res = mod.replay(rp["obligation"], rp["case"])
-    if res.get("ok") and rp.get("history"):
-        # does not reproduce alone: run the cases the worker explored just before it in the same process, then again
-        for h in rp["history"]:
+    if os.environ.get("VT_REPLAY_WITH_HISTORY"):
+        # second attempt, in a fresh interpreter: first the cases the worker explored just before it, then the case itself
+        for h in rp.get("history") or []:
             try:
                 mod.replay(rp["obligation"], h)
             except Exception:  # noqa
@@ -53,6 +52,12 @@ def do_replay(path):
         res = mod.replay(rp["obligation"], rp["case"])
         if not res.get("ok"):
             print("HISTORY-DEPENDENT: reproduces only after the %d preceding cases of the same process" % len(rp["history"]))
+    else:
+        res = mod.replay(rp["obligation"], rp["case"])
+        if res.get("ok") and rp.get("history"):
+            # does not reproduce alone; the attempt itself may have left state behind (caches), so the history is replayed
+            # in another fresh interpreter
+            os.execve(sys.executable, [sys.executable, "-m", "vt.run", "--replay", path], dict(os.environ, VT_REPLAY_WITH_HISTORY="1"))
     if res.get("ok"):
         print("REPLAY-OK property=%s obligation=%s (does not reproduce)" % (rp["property"], rp["obligation"]))
         return 0
